@@ -65,7 +65,7 @@ def get_nn_dist(kdt, query_point, dist_max, dist_min, active_points, test_value)
 
     if rp_idx.size == 0:
         return -1, []
-    elif dist_min > 0:
+    elif dist_min >= 0:  # the interval is open at its lower end also for dist_min == 0 (a site at distance 0 is not a neighbour)
         rp_idx = rp_idx[rp_dist > dist_min]
         rp_dist = rp_dist[rp_dist > dist_min]
 
